@@ -1198,8 +1198,31 @@ class EX(ExchangeInstruction):
 # uses counter
 class EXL(ExchangeInstruction):
     def lift(self, il: LowLevelILFunction, addr: int) -> None:
+        # Block exchange: loop I times (m++) <-> (n++).  Both internal-memory
+        # pointers advance (wrapping inside the 256-byte window) like MVL's.
+        first, second = self.operands()
+        assert isinstance(first, Pointer), f"Expected Pointer, got {type(first)}"
+        assert isinstance(second, Pointer), f"Expected Pointer, got {type(second)}"
+        dst_mode, src_mode = self._addressing_modes()
+        first_reg = TempReg(TempMvlDst)
+        second_reg = TempReg(TempMvlSrc)
+        first_reg.lift_assign(
+            il, first.lift_current_addr(il, pre=dst_mode, side_effects=False)
+        )
+        second_reg.lift_assign(
+            il, second.lift_current_addr(il, pre=src_mode, side_effects=False)
+        )
+        tmp = TempReg(TempExchange, width=1)
         with lift_loop(il):
-            self.lift_single_exchange(il, addr)
+            first_mem = first.memory_helper()(1, first_reg)
+            second_mem = second.memory_helper()(1, second_reg)
+            tmp.lift_assign(il, first_mem.lift(il, pre=AddressingMode.N))
+            first_mem.lift_assign(
+                il, second_mem.lift(il, pre=AddressingMode.N), pre=AddressingMode.N
+            )
+            second_mem.lift_assign(il, tmp.lift(il), pre=AddressingMode.N)
+            MVL._update_address_with_wrap(self, il, first_reg, il.add, first)  # type: ignore[arg-type]
+            MVL._update_address_with_wrap(self, il, second_reg, il.add, second)  # type: ignore[arg-type]
 
 
 class MiscInstruction(Instruction):
